@@ -115,8 +115,19 @@ func ErrSites(p *Program) []*ErrSite {
 			s.Key = fmt.Sprintf("%s #%d", base, perKey[base])
 			cv, isCall := call.(*ssa.Call)
 			if !isCall {
-				s.Dropped = true
-				s.DropWhy = "called through defer/go: the result is discarded"
+				// a deferred call whose error result can only be nil loses nothing
+				var k Kinds
+				for _, f := range callees {
+					if p.InModule(f) {
+						k |= ek.Sum(f, idx)
+					} else {
+						k |= KForeign
+					}
+				}
+				if k != KNil {
+					s.Dropped = true
+					s.DropWhy = "called through defer/go: the result is discarded"
+				}
 			} else {
 				ev, _ := errValueOf(cv)
 				switch {
